@@ -1031,6 +1031,8 @@ _R = 'aggregates/rolling_stats.py'
 _U = 'aggregates/utils.py'
 _T = 'aggregates/retrieval.py'
 VARIANTS = [
+    OK('mean-update-through-locals', 'aggregates/rolling_stats.py',
+       "    update = mean_diff * math_utils.safe_divide(other.count, self._count)\n    self._mean = math_utils.nanadd(self._mean, update)", "    weight = math_utils.safe_divide(other.count, self._count)\n    update = mean_diff * weight\n    self._mean = math_utils.nanadd(self._mean, update)"),
     B('sampler-skips-an-operand-with-empty-columns', 'aggregates/rolling_stats.py',
       "    if not other.samples:\n      return self", "    if not any(other.samples):\n      return self", 'R-C11-19'),
     B('classification-agg-fn-hands-out-one-initial-state', 'metrics/classification.py',
